@@ -21,8 +21,8 @@ EXTENDS TeraVM, Json, IOUtils
 Rec == ndJsonDeserialize(IOEnv.TRACE)
 Chunks == ndJsonDeserialize(IOEnv.CHUNKS)
 N == Len(Rec)
-HSet == {Chunks[i].h : i \in 1..Len(Chunks)}
-HIdx == [h \in HSet |-> CHOOSE i \in 1..Len(Chunks) : Chunks[i].h = h]
+\* enter events carry c = the position in Chunks of the chunk with the logged content hash h (the harness
+\* resolves h -> c; the specification re-checks that the hashes agree)
 
 \* callables that may mint Safe strings besides the engine's own mint points
 SafeFilters == {"safe", "wrap_safe", "viacall", "errkind"}
@@ -69,7 +69,7 @@ Reset == /\ Ev.e = "reset" /\ frames = <<>> /\ l' = l + 1
          /\ frames' = <<>> /\ xae' = Ev.xae /\ UNCHANGED bad
 
 Enter ==
-  /\ Ev.e = "enter" /\ l' = l + 1 /\ Ev.h \in HSet
+  /\ Ev.e = "enter" /\ l' = l + 1 /\ Ev.c >= 1 /\ Ev.c <= Len(Chunks) /\ Chunks[Ev.c].h = Ev.h
   /\ LET kind == IF frames = <<>> THEN "main" ELSE Pending(Top).op IN
      /\ \/ frames = <<>> /\ Ev.sd = 0 /\ Ev.ld = 0 /\ Ev.pd = 0
         \/ /\ frames # <<>> /\ Top.have /\ kind \in CallOps
@@ -78,7 +78,7 @@ Enter ==
                                             /\ Pending(Top).a = <<"super">>
                 [] kind = "Include" -> Ev.sd = 0 /\ Ev.ld = 0 /\ Ev.pd = 0 /\ Ev.cd = Top.cd
                 [] OTHER -> Ev.sd = 0 /\ Ev.ld = 0 /\ Ev.pd = 0 /\ Ev.cd = Top.cd + 1
-     /\ frames' = Append(frames, [c |-> HIdx[Ev.h], f |-> Frame0, have |-> FALSE, kind |-> kind,
+     /\ frames' = Append(frames, [c |-> Ev.c, f |-> Frame0, have |-> FALSE, kind |-> kind,
                                   bsd |-> Ev.sd, bld |-> Ev.ld, bpd |-> Ev.pd, ae |-> Ev.ae, cd |-> Ev.cd])
      /\ IF xae # "any" /\ (IF Ev.ae THEN "true" ELSE "false") # xae THEN Flag("AutoescapeAsConfigured") ELSE UNCHANGED bad
   /\ UNCHANGED xae
